@@ -693,10 +693,12 @@ class Lib:
         if meth == "dot":
             return A.dot(a, _arr(args[0], interp))
         if meth == "any":
-            return sv.cmp(">", A.reduce_sum(A.astype(a, "bool") if a.dtype != "bool" else a, axis), 0)
+            r = A.reduce_sum(A.astype(a, "bool") if a.dtype != "bool" else a, axis)
+            return A.binop(">", r, 0) if isinstance(r, A.Arr) else sv.cmp(">", r, 0)
         if meth == "all":
             nb = A.unop(sv.not_, A.astype(a, "bool") if a.dtype != "bool" else a, dtype="bool")
-            return sv.cmp("==", A.reduce_sum(nb, axis), 0)
+            r = A.reduce_sum(nb, axis)
+            return A.binop("==", r, 0) if isinstance(r, A.Arr) else sv.cmp("==", r, 0)
         if meth == "item":
             return a.get(tuple(0 for _ in a.shape))
         raise EngineError(f"ndarray.{meth}")
@@ -1022,8 +1024,10 @@ def _b_isinstance(interp, v, cls):
     for n in names:
         if isinstance(v, Ref) and v.kind == "obj" and v.cls and v.cls.name == n:
             return True
-        if n == "int" and ((isinstance(v, int) and not isinstance(v, bool)) or (isinstance(v, SV) and v.is_int)):
+        if n == "bool" and (isinstance(v, bool) or (isinstance(v, SV) and v.is_bool)):
             return True
+        if n == "int" and (isinstance(v, int) or (isinstance(v, SV) and (v.is_int or v.is_bool))):
+            return True      # bool is a subclass of int
         if n == "float" and (isinstance(v, Fraction) or (isinstance(v, SV) and v.is_real)):
             return True
         if n == "str" and isinstance(v, str):
